@@ -109,6 +109,7 @@ pub struct Session {
     pub osc_byte_seen: bool,
     pub replies: Vec<u8>,
     pub scratch: Option<std::path::PathBuf>,
+    pub recent: VecDeque<u8>,
 }
 
 #[derive(Debug)]
@@ -322,6 +323,7 @@ pub fn run_term(trace: &Trace) -> Outcome {
         osc_byte_seen: false,
         replies: Vec::new(),
         scratch: scratch.clone(),
+        recent: VecDeque::new(),
     };
 
     hooks::gate_activate(decode_fuel);
@@ -367,6 +369,14 @@ pub fn run_term(trace: &Trace) -> Outcome {
                         let Session { buf, caret, parser, .. } = &mut s;
                         catch_unwind(AssertUnwindSafe(|| parser.get().print_char(buf, 0, caret, b as char)))
                     };
+                    s.recent.push_back(b);
+                    if s.recent.len() > 40 {
+                        s.recent.pop_front();
+                    }
+                    if !cumulative && hooks::fuel_used() > fuel / 4 {
+                        let ctx: String = s.recent.iter().map(|c| if c.is_ascii_graphic() { *c as char } else { '.' }).collect();
+                        stats.max(&format!("fuel_hot_event:{}:{ctx}", cfg.emu), hooks::fuel_used());
+                    }
                     max_fuel = max_fuel.max(hooks::fuel_used());
                     total_fuel += hooks::fuel_used();
                     fuel_left = fuel_left.saturating_sub(hooks::fuel_used());
